@@ -272,6 +272,13 @@ M("C11", "M11-1-purge_deletes", dict(
     checks=[("err_propagates", "adv")]),
   title="purge_deletes returns the first advance_deletes error", functions=["SegmentUpdater::purge_deletes"], bounds="unroll 2")
 
+M("C01", "M01-9-in-memory-meta-follows-the-durable-one", dict(
+    root=SU + r"save_metas$", root_impl="SegmentUpdater", depth=2, unroll=2, inline=[r"segment_updater::save_metas$"],
+    events=ev(store_meta={"call": r"SegmentUpdater::store_meta$"}),
+    checks=[("precedes_ok", "meta_write", "store_meta"), ("not_after_fail", "meta_write", "store_meta"), ("reach", "store_meta")]),
+  title="SegmentUpdater::save_metas (commit and end of merge): the in-memory IndexMeta - which keeps the files of the last durable commit alive against garbage collection - is only replaced after meta.json was written successfully; after a failed write a GC followed by a crash would otherwise leave a meta.json that references deleted files",
+  functions=["SegmentUpdater::save_metas", "segment_updater::save_metas"], bounds="inline depth 2")
+
 M("C11", "M11-1-commit-task", dict(
     root=SU + r"schedule_commit::\{closure#0\}$", depth=3, unroll=2,
     inline=[r"SegmentUpdater::save_metas$", r"segment_updater::save_metas$"],
@@ -779,6 +786,14 @@ M("C02", "M02-6-memory-cut-only-between-groups", dict(
     checks=[("requires_between", "budget", "next_group", "add"), ("reach", "budget"), ("reach", "add")]),
   title="indexing worker: the memory budget is consulted between groups of operations only - after a budget check no document is added before the next group is fetched - so a segment cut never drops the rest of a `run` batch (confirmed natively by the run-groups probe)",
   functions=["index_writer::index_documents"], bounds="unroll 2")
+
+M("C11", "M11-7-only-a-missing-positions-file-is-tolerated", dict(
+    kind="guard", subject_result=True,
+    subject=r"index::segment::Segment::open_read$",
+    required=("directory::error::OpenReadError", "FileDoesNotExist", "src/directory/error.rs"),
+    sites=[dict(body=r"^index::segment_reader::" + I + r"::open_with_custom_alive_set$", mode="before_call", target=r"CompositeFile::empty$", expect=1)]),
+  title="SegmentReader::open: the positions file may be absent, nothing else is tolerated - the empty composite is only substituted when the preceding open_read failed with OpenReadError::FileDoesNotExist; an I/O error or an incompatible file is returned to the caller (reload, merge, advance_deletes)",
+  functions=["SegmentReader::open_with_custom_alive_set"], bounds="every path to CompositeFile::empty(); values the executor does not model are unconstrained")
 
 # =============================================================================================
 # C03: mixed-type numeric range bounds (mirbv: loop-free integer MIR -> QF_BV)
